@@ -22,6 +22,7 @@ P_BACKSLASH = pred(lambda c: c == "\\")
 P_LINEBREAK = pred(lambda c: c in "\n\r")
 P_NUL = pred(lambda c: c == "\0")
 P_DQUOTE = pred(lambda c: c == '"')
+P_ALPHA_NOT_START = pred(lambda c: c.isalpha() and (not c.isidentifier() or not c.upper()[:1].isidentifier()))
 P_TOML_CTRL = pred(lambda c: (ord(c) < 0x20 and c != "\t") or ord(c) == 0x7F)
 
 
@@ -51,4 +52,6 @@ CLASSES = {
     "nul": any_input_has(P_NUL),
     "dquote": any_input_has(P_DQUOTE),
     "toml_control": any_input_has(P_TOML_CTRL),
+    # alphabetic characters that cannot *start* an identifier (e.g. U+0EB3 LAO VOWEL SIGN AM): enum member names get no prefix
+    "alpha_not_xid_start": any_input_has(P_ALPHA_NOT_START),
 }
